@@ -310,7 +310,7 @@ package vegeta
 //@   forall a, b, s, n int :: n > 0 && s >= 0 && 0 <= a && a < n && 0 <= b && b < n && rot(a, s, n) == rot(b, s, n) ==> a == b
 
 //@ func NewRoundRobinDecoder$1
-//@   property C13
+//@   property C13 C16
 //@   uses rot_injective
 //@   returns (err)
 //@   requires [at-least-one] len(dec) >= 1
@@ -550,19 +550,37 @@ package vegeta
 //@   ensures [strict-rotation] tgt != nil ==> err == nil && i == old(i) + 1 && *tgt == tgts[emod(i, len(tgts))]
 //@   ensures [targets-untouched] forall j int :: 0 <= j && j < len(tgts) ==> tgts[j] == old(tgts[j])
 
+// Generated JSON decoder for targets: key <-> field pairing, safety, termination (as for results).
 //@ func (*jsonTarget).decode
-//@   trusted
-//@   requires t != nil && in != nil
+//@   property C14 C16
+//@   requires [non-nil] t != nil && in != nil
 //@   modifies *t, *in
+//@   at store t.Method: assert [key-method] key == "method"
+//@   at store t.URL: assert [key-url] key == "url"
+//@   at store t.Body: assert [key-body] key == "body"
+//@   at store t.Header: assert [key-header] key == "header"
+//@   ghost g0 int
+//@   ghost g1 int
+//@   at call UnsafeString: ghost g0 = lexleft(in) + (lexok(in) ? 1 : 0)
+//@   at store key: ghost g1 = lexleft(in) + (lexok(in) ? 1 : 0)
+//@   loop 1
+//@     invariant in == old(in) && t == old(t)
+//@     decreases lexleft(in) + (lexok(in) ? 1 : 0)
+//@   loop 2
+//@     invariant in == old(in) && t == old(t) && (t.Header != nil ==> fresh(t.Header)) && (t.Header == nil ==> isdelim(in, lexleft(in), lexok(in), 125))
+//@     invariant lexleft(in) + (lexok(in) ? 1 : 0) <= g1 && g1 <= g0
+//@     decreases lexleft(in) + (lexok(in) ? 1 : 0)
+//@   loop 3
+//@     invariant lexleft(in) + (lexok(in) ? 1 : 0) <= g1 && (cap(v2) > 0 ==> fresh(v2))
 
 // JSON targeter: only the line read happens under the reader's mutex; everything else touches locals,
 // the caller's *tgt and fresh memory (frame), so concurrent callers interfere only through the reader.
 //@ func NewJSONTargeter$1
-//@   property C14 C15
+//@   property C14 C15 C16
 //@   returns (err)
 //@   guarded bufio.Reader by &rd.Mutex
 //@   requires [target-header-unset] tgt == nil || tgt.Header == nil
-//@   requires [reader-ready] rd.Reader != nil && !held(&rd.Mutex)
+//@   requires [reader-ready] rd.Reader != nil && !held(&rd.Mutex) && bytesleft(rd.Reader) >= 0
 //@   requires [package-initialised] ErrNilTarget != nil && ErrNoTargets != nil && ErrNoMethod != nil && ErrNoURL != nil
 //@   modifies *tgt, *rd.Reader
 //@   ensures [nil-target-rejected] tgt == nil ==> err == ErrNilTarget
@@ -570,7 +588,8 @@ package vegeta
 //@   ensures [own-header-map] err == nil ==> tgt.Header != nil && fresh(tgt.Header)
 //@   ensures [lock-released] !held(&rd.Mutex)
 //@   loop 1
-//@     invariant held(&rd.Mutex) && tgt != nil && tgt == old(tgt) && rd.Reader == old(rd.Reader) && rd.Reader != nil && tgt.Header == nil
+//@     invariant held(&rd.Mutex) && tgt != nil && tgt == old(tgt) && rd.Reader == old(rd.Reader) && rd.Reader != nil && tgt.Header == nil && bytesleft(rd.Reader) >= 0
+//@     decreases bytesleft(rd.Reader)
 //@   loop 2
 //@     invariant !held(&rd.Mutex) && tgt != nil && tgt == old(tgt) && tgt.Header != nil && fresh(tgt.Header) && tgt.Method != "" && tgt.URL != "" && header == old(header)
 //@     invariant forall k string :: cap(tgt.Header[k]) > 0 ==> fresh(tgt.Header[k])
@@ -593,11 +612,11 @@ package vegeta
 // HTTP targeter: the whole decode is one critical section under mu; it writes only *tgt, the
 // scanner state and fresh memory (frame): neither the defaults nor any target returned earlier.
 //@ func NewHTTPTargeter$1
-//@   property C14 C15
+//@   property C14 C15 C16
 //@   returns (err)
 //@   guarded peekingScanner by &mu
 //@   guarded bufio.Scanner by &mu
-//@   requires [scanner-ready] sc.src != nil && !held(&mu)
+//@   requires [scanner-ready] sc.src != nil && !held(&mu) && scanleft(sc.src) >= 0
 //@   requires [package-initialised] ErrNilTarget != nil && ErrNoTargets != nil
 //@   modifies *tgt, sc.peeked, *sc.src
 //@   ensures [nil-target-rejected] tgt == nil ==> err == ErrNilTarget
@@ -605,17 +624,19 @@ package vegeta
 //@   ensures [own-header-values] err == nil ==> (forall k string :: cap(tgt.Header[k]) > 0 ==> fresh(tgt.Header[k]))
 //@   ensures [lock-released] !held(&mu)
 //@   loop 1
-//@     invariant held(&mu) && tgt != nil && tgt == old(tgt) && sc.src == old(sc.src) && sc.src != nil
+//@     invariant held(&mu) && tgt != nil && tgt == old(tgt) && sc.src == old(sc.src) && sc.src != nil && scanleft(sc.src) >= 0
+//@     decreases scanleft(sc.src) + (sc.peeked != "" ? 1 : 0)
 //@   loop 2
-//@     invariant held(&mu) && tgt != nil && tgt == old(tgt) && sc.src == old(sc.src) && sc.src != nil && tgt.Header != nil && fresh(tgt.Header) && hdr == old(hdr)
+//@     invariant held(&mu) && tgt != nil && tgt == old(tgt) && sc.src == old(sc.src) && sc.src != nil && tgt.Header != nil && fresh(tgt.Header) && hdr == old(hdr) && scanleft(sc.src) >= 0
 //@     invariant forall k string :: cap(tgt.Header[k]) > 0 ==> fresh(tgt.Header[k])
 //@   loop 3
-//@     invariant held(&mu) && tgt != nil && tgt == old(tgt) && sc.src == old(sc.src) && sc.src != nil && tgt.Header != nil && fresh(tgt.Header)
+//@     invariant held(&mu) && tgt != nil && tgt == old(tgt) && sc.src == old(sc.src) && sc.src != nil && tgt.Header != nil && fresh(tgt.Header) && scanleft(sc.src) >= 0
 //@     invariant forall k string :: cap(tgt.Header[k]) > 0 ==> fresh(tgt.Header[k])
 //@     invariant len(tokens) >= 2
+//@     decreases scanleft(sc.src) + (sc.peeked != "" ? 1 : 0)
 //@   loop 4
 //@     invariant -1 <= rangeindex && rangeindex < len(tokens) && len(tokens) >= 2 && fresh(tokens)
-//@     invariant held(&mu) && tgt != nil && tgt == old(tgt) && sc.src == old(sc.src) && sc.src != nil && tgt.Header != nil && fresh(tgt.Header)
+//@     invariant held(&mu) && tgt != nil && tgt == old(tgt) && sc.src == old(sc.src) && sc.src != nil && tgt.Header != nil && fresh(tgt.Header) && scanleft(sc.src) >= 0
 //@     invariant forall k string :: cap(tgt.Header[k]) > 0 ==> fresh(tgt.Header[k])
 //@     decreases len(tokens) - rangeindex
 
@@ -746,9 +767,42 @@ package vegeta
 //@   requires w != nil
 //@   modifies *w
 //@ func (*jsonResult).UnmarshalEasyJSON
-//@   trusted
-//@   requires v != nil && l != nil
-//@   modifies *v, *l
+//@   inline
+
+// Generated JSON decoder for results: every documented key is stored into the field of the same
+// name (key <-> field pairing), nothing else is written, no index can go out of range, and every
+// loop consumes lexer input or ends on the lexer's error (termination variant).
+//@ func easyjsonBd1621b8DecodeGithubComTsenartVegetaV12Lib
+//@   property C07 C16
+//@   requires [non-nil] in != nil && out != nil
+//@   modifies *out, *in
+//@   at store out.Attack: assert [key-attack] key == "attack"
+//@   at store out.Seq: assert [key-seq] key == "seq"
+//@   at store out.Code: assert [key-code] key == "code"
+//@   at call UnmarshalJSON: assert [key-timestamp-rfc3339] key == "timestamp"
+//@   at store out.Latency: assert [key-latency-ns] key == "latency"
+//@   at store out.BytesOut: assert [key-bytes-out] key == "bytes_out"
+//@   at store out.BytesIn: assert [key-bytes-in] key == "bytes_in"
+//@   at store out.Error: assert [key-error] key == "error"
+//@   at store out.Body: assert [key-body] key == "body"
+//@   at store out.Method: assert [key-method] key == "method"
+//@   at store out.URL: assert [key-url] key == "url"
+//@   at store out.Headers: assert [key-headers] key == "headers"
+//@   ghost g0 int
+//@   ghost g1 int
+//@   at call UnsafeFieldName: ghost g0 = lexleft(in) + (lexok(in) ? 1 : 0)
+//@   at store key: ghost g1 = lexleft(in) + (lexok(in) ? 1 : 0)
+//@   loop 1
+//@     invariant in == old(in) && out == old(out)
+//@     decreases lexleft(in) + (lexok(in) ? 1 : 0)
+//@   loop 2
+//@     invariant in == old(in) && out == old(out) && out.Headers != nil && fresh(out.Headers)
+//@     invariant lexleft(in) + (lexok(in) ? 1 : 0) <= g1 && g1 <= g0
+//@     decreases lexleft(in) + (lexok(in) ? 1 : 0)
+//@   loop 3
+//@     invariant lexleft(in) + (lexok(in) ? 1 : 0) <= g1 && (cap(v2) > 0 ==> fresh(v2))
+//@     invariant in == old(in) && out == old(out) && lexleft(in) >= 0 && out.Headers != nil && fresh(out.Headers) && (cap(v2) > 0 ==> fresh(v2))
+//@     decreases lexleft(in) + (lexok(in) ? 1 : 0)
 
 // JSON decoder: only a complete, newline-terminated line is ever handed to the unmarshaller; when the
 // line read fails (torn last line, end of stream) the function returns before touching *r.
